@@ -186,3 +186,15 @@ Proof. unfold pad8. pose proof (Z.mod_pos_bound l 8 ltac:(lia)) as H. pose proof
   destruct (Z.eq_dec (l mod 8) 0) as [Hz|Hz].
   - rewrite Hz. change ((8 - 0) mod 8) with 0. rewrite Z.add_0_r. exact Hz.
   - rewrite (Z.mod_small (8 - l mod 8)) by lia. rewrite E at 1. replace (8 * (l / 8) + l mod 8 + (8 - l mod 8)) with ((l / 8 + 1) * 8) by lia. apply Z_mod_mult. Qed.
+
+(** a result that is not a panic (nor fuel exhaustion) and whose value satisfies [P] *)
+Definition safe_res {A} (P : A -> Prop) (r : res A) : Prop :=
+  match r with Ok a => P a | Err => True | _ => False end.
+
+Lemma safe_bind {A B} (P : A -> Prop) (Q : B -> Prop) (r : res A) (f : A -> res B) :
+  safe_res P r -> (forall a, P a -> safe_res Q (f a)) -> safe_res Q (bind r f).
+Proof. destruct r; cbn [safe_res bind]; intros H Hf; try exact H. apply Hf, H. Qed.
+
+
+Lemma safe_res_impl {A} (P Q : A -> Prop) (r : res A) : (forall a, P a -> Q a) -> safe_res P r -> safe_res Q r.
+Proof. intros H. destruct r; cbn [safe_res]; auto. Qed.
